@@ -97,6 +97,18 @@ CHECKS = {
         technique="TLA+ transcription of the guard grammar/semantics evaluated by TLC as oracle over an enumerated case space; differential execution on the implementation",
         note="Trusted base: TLC evaluating GuardExpr.tla; the token->text concretiser (lib/checks/c08.py), itself cross-checked through Python's eval; exhaustive only for the stated small scope.",
     ),
+    "C09": dict(
+        category="model_checking",
+        engine="tlc-validate",
+        text=("Validate.tla defines Verdict(g, strict) (rejection reasons; strict-or-warn conditions; Reach as transitive closure over directed "
+              "transitions; from_.any() expansion); TLC evaluates it for every graph of an exhaustively enumerated space (all graphs over 1-3 "
+              "states x all flag assignments x all edge sets x strict; thorough: all 4-state graphs with fixed initial state, sampled 5-state) "
+              "plus doubled edges / internal flags / any(); each class statement is executed for real under warnings capture and outcome, "
+              "warning kinds and the states they name must equal the verdict - both directions of the iff."),
+        design_ref="DESIGN.md 5 C09",
+        technique="TLA+ definition of the acceptance verdict evaluated by TLC over an exhaustively enumerated graph space; differential execution of real class statements",
+        note="Trusted base: TLC evaluating Validate.tla; exhaustive within the stated graph sizes.",
+    ),
     "C10": dict(
         category="model_checking",
         text=("The spec keeps a single `cur` per instance (the model field) and derives every projection from it; TLC explores outside writes "
@@ -199,6 +211,8 @@ def main():
              "kind_free_text": "explicit TLA+ specification (Engine.tla/System.tla), TLC exhaustive model checking (MC_System), batched TLC trace validation of executions recorded from the real library (Trace_System)"},
             {"name": "tlc-bind", "path": "/verif/spec/Bind.tla", "serves_properties": ["C07"],
              "kind_free_text": "TLA+ transcription of callback argument binding evaluated by TLC over harness-enumerated cases (Eval_Bind)"},
+            {"name": "tlc-validate", "path": "/verif/spec/Validate.tla", "serves_properties": ["C09"],
+             "kind_free_text": "TLA+ definition of class-definition verdicts evaluated by TLC over exhaustively enumerated graphs (Eval_Validate)"},
             {"name": "tlc-guardexpr", "path": "/verif/spec/GuardExpr.tla", "serves_properties": ["C08"],
              "kind_free_text": "TLA+ transcription of guard expressions (evaluation, rendering, parsing) evaluated by TLC over harness-enumerated cases (Eval_GuardExpr)"},
             {"name": "tlc-dispatch", "path": "/verif/spec/Dispatch.tla",
